@@ -15,7 +15,7 @@ LEVEL_TEXT = ("Static structural proof of necessary conditions: (R16.1) the thre
               "and the dataset result; (R16.4) the command-line status is non-zero iff the unmodified validate result "
               "is non-empty; (R16.5) applicable sidecars are collected root->leaf and merged forward with later-wins. "
               "The applicability test on entities and equality with per-file validation are NOT decided.")
-LEVEL_EXTRA = "Added after the seeded evaluation: (R16.2) both directory walkers apply the same exclusion test. (R16.6) a data file's sidecar is built from the whole list of sidecars applicable to it. (R16.7) no entity comparison in is_sidecar_for defaults a missing entity to the expected value. R16.1 also reports a file-selecting constructor parameter that is stored in a rewritten form."
+LEVEL_EXTRA = "Added after the seeded evaluation: (R16.2) both directory walkers apply the same exclusion test. (R16.6) a data file's sidecar is built from the whole list of sidecars applicable to it. (R16.7) no entity comparison in is_sidecar_for defaults a missing entity to the expected value. R16.1 also reports a file-selecting constructor parameter that is stored in a rewritten form. (R16.8) every sidecar of the group reaches the validator and a data file is read with the merged sidecar contents."
 
 
 def bind(call, callee, skip_self=False):
@@ -467,6 +467,40 @@ def run(ctx):
                       "`run-1` or `task-x` is applied to data files that lack that entity",
                       desc="entity comparison does not default to the expected value")
     ctx.floor("R16.7", "entity value comparisons in is_sidecar_for", n_ent, 1)
+
+    # ---------------- R16.8: every sidecar of the group is validated
+    ctx.rule("R16.8", "validate_sidecars hands every sidecar of the group to the validator; data files get the merged contents")
+    from sa.dom import iteration_can_skip, view as _view16
+    vsd = group.methods.get("validate_sidecars")
+    if vsd is None:
+        raise AnalysisError("anchor BidsFileGroup.validate_sidecars vanished")
+    ctx.saw(vsd)
+    v168 = _view16(ctx, vsd)
+    vcalls = [n_ for (n_, c) in v168.calls(lambda c: call_name(c) == "validate")]
+    loops168 = [lp for lp in walk_no_nested(vsd.node) if isinstance(lp, ast.For) and "sidecar_dict" in norm(lp.iter)]
+    ctx.floor("R16.8", "per-sidecar loops in validate_sidecars", len(loops168), 1)
+    for lp in loops168:
+        ctx.check(bool(vcalls) and not iteration_can_skip(v168, lp, vcalls), "R16.8", vsd.qualname, lp.iter, loc(vsd, lp),
+                  "a sidecar of the group can be passed over without being validated: its issues (e.g. a HED key below the level where "
+                  "`has_hed` looks) are missing from the dataset result and the command line exits 0",
+                  desc="every sidecar reaches validator.validate")
+    # the table of a data file is built with the merged sidecar contents, not with one file
+    sc8 = prog.find_class("BidsTabularFile").methods.get("set_contents")
+    if sc8 is None:
+        raise AnalysisError("anchor BidsTabularFile.set_contents vanished")
+    ctx.saw(sc8)
+    n_ti = 0
+    for c in walk_no_nested(sc8.node):
+        if isinstance(c, ast.Call) and call_name(c) == "TabularInput":
+            a = cg.arg(c, "sidecar")
+            if a is None:
+                continue
+            n_ti += 1
+            ctx.check("contents" in norm(a), "R16.8", sc8.qualname, c, loc(sc8, c),
+                      "the events file is read with `%s` instead of the merged contents of its sidecar object: only the deepest JSON "
+                      "file applies and what the shallower ones supply (definitions, other columns) is lost" % norm(a),
+                      desc="TabularInput gets the merged sidecar contents")
+    ctx.floor("R16.8", "TabularInput constructions with a sidecar in set_contents", n_ti, 1)
 
 
 def _reversal_ops(fnode):
